@@ -59,6 +59,37 @@ CHECKS = {
         ref="DESIGN.md 6 (C19)",
         technique="TLC-generated expressions replayed into the real pass; TLC trace validation (skeleton match, fold "
                   "evaluation on all small integer sequences, semantic equality)"),
+    "C11": dict(
+        text="spec/Streams.tla models the forest of streams over a heap of SHARED AST nodes (derive = new node pointing "
+             "at the parent's node, QMetaData = shallow copy of the top node, value() = clean + hand to executor) next to "
+             "the abstract design (streams are immutable values). TLC model-checks that the heap model implements the "
+             "abstract design (Immutable, ImmutableStep) for all histories up to the bound, exports every maximal "
+             "history (BFS) plus random deeper ones, the harness replays them on real EventDataset/ObjectStream objects "
+             "and TLC (TraceStreams.tla) validates after EVERY step that every previously created stream still shows "
+             "its creation-time AST and item type.",
+        ref="DESIGN.md 6 (C11), 3.10",
+        technique="TLC model checking of the Streams heap model + TLC-generated histories replayed on the real objects "
+                  "+ TLC trace validation of the full projected state after every step"),
+    "C12": dict(
+        text="Same state machine with executions: ValueStart / ExecReturn / ExecRaise over <= 2 datasets, <= 3 calls in "
+             "flight, override executors, titles, MetaData({}) wrappers and terminals. TLC checks NoExecWhileBuilding, "
+             "ExactlyOneCall, RoutedAndClean, OutcomeOnce on the model for all interleavings and completion orders; the "
+             "exported histories are replayed with real asyncio tasks whose executor futures are completed in TLC's "
+             "order, and TLC validates per step: no executor call while building, exactly one call on value_async, on "
+             "the root dataset's executor (or the override), with RemoveEmptyMD(view) and the title, and that the "
+             "caller gets exactly the value / exception of its own call.",
+        ref="DESIGN.md 6 (C12), 3.10",
+        technique="TLC model checking over all schedules + deterministic asyncio replay of TLC's schedules + TLC trace "
+                  "validation of executor log and deliveries"),
+    "C16": dict(
+        text="Same state machine with QMetaData on roots and derived streams (new / repeated keys, equal / different "
+             "values, consecutive calls, branching). TLC checks QmdOK (lookup = last write on the stream's own path) on "
+             "the heap model; exported histories are replayed and TLC validates after every step the lookup of every key "
+             "on every live stream against the ghost map, and that the AST, dump and hash the executor receives equal "
+             "those of a shadow chain built without any QMetaData.",
+        ref="DESIGN.md 6 (C16), 3.10",
+        technique="TLC model checking of the QMetaData heap model + replayed histories + TLC trace validation of all "
+                  "lookups and of executor AST/dump/hash against a QMetaData-free shadow chain"),
 }
 
 ORDER = ["C%02d" % i for i in range(1, 21)]
